@@ -114,11 +114,15 @@ def split_bool(b, known):
 def _split_generic_args(s):
     """top-level comma split of a generic argument list string"""
     out, depth, cur = [], 0, ""
+    prev = ""
     for ch in s:
         if ch in "<([":
             depth += 1
+        elif ch == ">" and prev == "-":
+            pass
         elif ch in ">)]":
             depth -= 1
+        prev = ch
         if ch == "," and depth == 0:
             out.append(cur.strip())
             cur = ""
@@ -137,6 +141,8 @@ def _as_parts(full):
     for i, ch in enumerate(full):
         if ch == "<":
             depth += 1
+        elif ch == ">" and i > 0 and full[i - 1] == "-":
+            continue
         elif ch == ">":
             depth -= 1
             if depth == 0:
@@ -154,6 +160,8 @@ def _as_parts(full):
         ch = inner[j]
         if ch in "<([":
             depth += 1
+        elif ch == ">" and j > 0 and inner[j - 1] == "-":
+            pass
         elif ch in ">)]":
             depth -= 1
         elif depth == 0 and inner.startswith(" as ", j):
@@ -402,6 +410,30 @@ class Models:
             fid = self.from_impl(full)
             if fid is not None and fid != self.w.fn.id:
                 return self.apply(("fnitem", fid, fid, fid), (a[0],), site, known) if self._inlinable(fid) else None
+        # ---- polonius-the-crab 0.4 (src/try.rs): Try::branch(r) = r.map_err(|e| Err(e.into())), Residual::with_output(res) = res? ----
+        if path == "polonius_the_crab::ඞ::Try::branch" and len(a) == 1 and (full or "").startswith("<std::result::Result<"):
+            pp = _as_parts(full or "")
+            ident = False
+            if pp and len(pp[2]) == 1 and pp[2][0].startswith("std::result::Result<"):
+                fa = _split_generic_args(pp[0][len("std::result::Result<"):-1])
+                ra = _split_generic_args(pp[2][0][len("std::result::Result<"):-1])
+                ident = len(fa) == 2 and len(ra) == 2 and fa[1] == ra[1]
+            outs = []
+            for v, c, k in split_enum(a[0], RES, known):
+                if v == "Ok":
+                    outs.append(Out(c, [], OK(payload(a[0], "Ok")), k))
+                else:
+                    e = payload(a[0], "Err")
+                    if not ident:
+                        e = ("call", "std::convert::Into::into", "Into::into", (e,), site)
+                    outs.append(Out(c, [] if ident else [("call", e)], ERR(ERR(e)), k))
+            return outs
+        if path == "polonius_the_crab::ඞ::Residual::with_output" and len(a) == 1:
+            r = a[0]
+            if r[0] == "agg" and r[1] == "adt" and r[2] == RES + "::Err":
+                return [Out([], [], ERR(r[3][0]))]
+            if r[0] == "agg" and r[1] == "adt" and r[2] == OPT + "::None":
+                return [Out([], [], NONE)]
         # ---- slices: the accessors are defined by the length of the slice (the same conditions a slice pattern tests) ----
         if path.startswith("core::slice::<impl [T]>::") and a:
             sl = slice_base(a[0])
